@@ -1237,13 +1237,17 @@ impl<C: Config, Q: Query> Snapshot<C, Q> {
         mut self,
         mut backward_projection_lock_guard: BackwardProjectionLockGuard<C>,
     ) {
-        let mut tx = self.engine().new_write_transaction();
         let engine = self.engine().clone();
         let query_id = *self.query_id();
 
         self.upgrade_to_exclusive().await;
 
         async move {
+            // created inside the guarded block: a write batch that exists
+            // while this future can still be cancelled (the await above) would
+            // be dropped unsubmitted and leave a hole in the epoch sequence
+            let mut tx = engine.new_write_transaction();
+
             engine
                 .computation_graph
                 .database
